@@ -144,6 +144,13 @@ def discharge(ob, inputs, timeout_s=30, use_cvc5=True, ufuns=None):
             if r2 != z3.unknown:
                 r, s = r2, s2
                 ob.backend = 'z3(simplify,solve-eqs,smt)'
+    if r == z3.unknown:
+        m = random_refute(ob, inputs)
+        if m is not None:
+            ob.status, ob.backend = 'refuted', 'pyvc:path-condition model + random completion (evaluated counter-model)'
+            ob.model = extract_model(m, inputs, ufuns)
+            ob.time = time.time() - t0
+            return ob
     if r == z3.unsat:
         ob.status = 'discharged'
     elif r == z3.sat:
@@ -363,3 +370,50 @@ def _vars(e, acc=None, seen=None):
 def _relevant(pc, goal):
     gv = _vars(goal)
     return [c for c in pc if _vars(c) & gv]
+
+
+def random_refute(ob, inputs, tries=24):
+    """counter-model search for obligations the solvers leave open (typically polynomial identities that do NOT hold):
+    a model of the path condition fixes the variables it mentions, every other input gets a random small dyadic value, and the
+    negated obligation is *evaluated* under that total assignment.  A hit is a genuine counter-model; a miss proves nothing."""
+    import random
+    rnd = random.Random(12345)
+    terms = flat_terms(inputs)
+    if not terms or _has_quantifier(list(ob.pc) + [ob.formula]):
+        return None
+    pcv = set()
+    for c in ob.pc:
+        _vars(c, pcv)
+    s = z3.Solver()
+    s.set('timeout', 5000)
+    s.add(*ob.pc)
+    if s.check() != z3.sat:
+        return None
+    base = s.model()
+    for k in range(tries):
+        m = base
+        if k > 0:
+            s.push()
+            # diversify the path-condition model a little
+            for t in terms:
+                if t.get_id() in pcv and z3.is_real(t) and rnd.random() < 0.25:
+                    s.add(t == z3.RealVal(rnd.randint(-16, 24)) / 8)
+            if s.check() == z3.sat:
+                m = s.model()
+            s.pop()
+        s2 = z3.Solver()
+        s2.set('timeout', 5000)
+        for t in terms:
+            if t.get_id() in pcv:
+                s2.add(t == m.eval(t, model_completion=True))
+            elif z3.is_real(t):
+                s2.add(t == z3.RealVal(rnd.randint(-16, 24)) / 8)
+            elif z3.is_int(t):
+                s2.add(t == rnd.randint(0, 4))
+            elif z3.is_bool(t):
+                s2.add(t == (rnd.random() < 0.5))
+        s2.add(*ob.pc)
+        s2.add(z3.Not(ob.formula))
+        if s2.check() == z3.sat:
+            return s2.model()
+    return None
